@@ -7,6 +7,7 @@ From V Require Import Base.Bytes Base.Res Gen.Tables Model.Escape Spec.EscapeSpe
 From V Require Import Base.Bytes Base.Res Gen.Tables Model.Escape Spec.EscapeSpec.
 From V Require Import Model.Anchor.
 From V Require Import Model.Ast Model.Footnotes Spec.FootnoteSpec.
+From V Require Import Model.FrontMatter Spec.FrontMatterSpec.
 Extraction Language OCaml.
 Set Extraction KeepSingleton.
 
@@ -58,4 +59,13 @@ Extraction "model.ml"
   FootnoteSpec.nested_def
   FootnoteSpec.all_refs
   FootnoteSpec.first_seen
+  FrontMatter.split_off_front_matter
+  FrontMatter.count_lf
+  FrontMatterSpec.spec_split
+  FrontMatterSpec.spec_split_doc
+  FrontMatterSpec.fm_class
+  FrontMatterSpec.delim_ok
+  FrontMatterSpec.lf_count
+  FrontMatterSpec.spec_line_count
+  FrontMatterSpec.rest_has_bom
 .
